@@ -282,14 +282,43 @@ def _tf_entries(exprs, tfname):
     return got
 
 
+def _find_arc_branch(ctx, fi):
+    """the function that holds transform()'s Arc branch: transform itself, or a helper it reaches through calls / dispatch tables"""
+    mod = fi.module
+    seen, todo = set(), [fi.node]
+    order = []
+    while todo and len(seen) < 60:
+        node = todo.pop(0)
+        for x in ast.walk(node):
+            if isinstance(x, ast.Name) and isinstance(x.ctx, ast.Load) and x.id not in seen:
+                if x.id in mod.functions and mod.functions[x.id] is not fi:
+                    seen.add(x.id)
+                    order.append(mod.functions[x.id])
+                    todo.append(mod.functions[x.id].node)
+                elif x.id in mod.globals and x.id.startswith('_'):
+                    seen.add(x.id)
+                    todo.append(mod.globals[x.id])
+    for f in order:
+        if len(f.params()) >= 2 and any(isinstance(c, ast.Call) and call_name(c) == 'Arc' for c in walk_no_nested(f.node)) and \
+                any(isinstance(c, ast.Call) and 'eig' in call_name(c) for c in walk_no_nested(f.node)):
+            return f
+    return None
+
+
 def _arc_branch_flow(ctx, fi):
     fn = fi.node
     tfname = fi.params()[1]
-    defs = _defs_in(fn)
     # the Arc(...) construction in the arc branch
     arcs = [c for c in walk_no_nested(fn) if isinstance(c, ast.Call) and call_name(c) == 'Arc']
+    holder = fi
     if not arcs:
-        raise AnchorMissing('Arc(...) construction in path.transform')
+        holder = _find_arc_branch(ctx, fi)
+        if holder is None:
+            raise AnchorMissing('Arc(...) construction in path.transform (or in a helper it dispatches to)')
+        fn = holder.node
+        tfname = holder.params()[1]
+        arcs = [c for c in walk_no_nested(fn) if isinstance(c, ast.Call) and call_name(c) == 'Arc']
+    defs = _defs_in(fn)
     call = arcs[-1]
     kw = {k.arg: k.value for k in call.keywords}
     pos = list(call.args)
@@ -306,7 +335,7 @@ def _arc_branch_flow(ctx, fi):
     full = {(0, 0), (0, 1), (1, 0), (1, 1)}
     ctx.record('R10.5', fi.qualname, 'sweep depends on tf entries %s' % sorted(ent), ent == full,
                detail='' if ent == full else 'orientation is the sign of the determinant of tf[:2,:2]; the sweep decision reads only %s' % sorted(ent),
-               where=where(fi, call))
+               where=where(holder, call))
     # (b) rotation: must read both components of an eigenvector
     rot_exprs = _slice_exprs(fn, argmap['rotation'], defs)
     comps = set()
@@ -319,10 +348,10 @@ def _arc_branch_flow(ctx, fi):
             comps |= {0, 1}
     ctx.record('R10.5', fi.qualname, 'rotation depends on eigenvector components %s' % sorted(comps), comps >= {0, 1},
                detail='' if comps >= {0, 1} else 'the axis angle is taken from one component through an even function (arccos): its sign is lost',
-               where=where(fi, call))
+               where=where(holder, call))
     # (c) radii must depend on curve.rotation
     rad_exprs = _slice_exprs(fn, argmap['radius'], defs)
     dep = any(isinstance(x, ast.Attribute) and x.attr in ('rotation', 'phi', 'rot_matrix') for e in rad_exprs for x in ast.walk(e))
     ctx.record('R10.5', fi.qualname, 'radius depends on curve.rotation=%s' % dep, dep,
                detail='' if dep else "the quadratic form of the transformed ellipse ignores the ellipse's own rotation",
-               where=where(fi, call))
+               where=where(holder, call))
